@@ -406,7 +406,7 @@ def discharge(o, hyps, pool, budget_ms=20000):
             return dict(status='undecided', backend=r['method'], seconds=time.time() - t0, witness=None,
                         detail='; '.join(f'{k}: {res}' for k, res in r['failed'][:3]))
         # the residual may vanish on this path only (tie conditions among the hypotheses): ask the SMT back end
-        if DEADLINE['t'] is None or time.time() < DEADLINE['t']:
+        if DEADLINE['t'] is None or time.process_time() < DEADLINE['t']:
             rr = smt.prove(core.cmp('eq', o.lhs, o.rhs), hyps, timeout_ms=min(budget_ms, 4000), external=False)
             if rr['status'] == 'proved':
                 return dict(status='proved', backend=rr['backend'], seconds=time.time() - t0, witness=None,
@@ -483,7 +483,7 @@ def discharge(o, hyps, pool, budget_ms=20000):
     if DEADLINE.get('unknowns', 0) >= 8:
         return dict(status='undecided', backend='budget', seconds=time.time() - t0, witness=None,
                     detail='SMT back end skipped: 8 earlier obligations of this contract run already came back unknown')
-    if DEADLINE['t'] is not None and time.time() > DEADLINE['t']:
+    if DEADLINE['t'] is not None and time.process_time() > DEADLINE['t']:
         return dict(status='undecided', backend='budget', seconds=time.time() - t0, witness=None,
                     detail='contract time budget exhausted before this obligation reached the SMT back end')
     r = smt.prove(goal, hyps, timeout_ms=budget_ms, external=budget_ms >= 15000)
@@ -648,7 +648,7 @@ def run_symbolic(contract, cfg, modules, seed=0, pool_size=6, max_paths=64, budg
         run.error = f'{type(e).__name__}: {e}'
     run.notes = list(S.notes)
     assume = list(core.CTX.assume)
-    DEADLINE['t'] = time.time() + time_cap_s
+    DEADLINE['t'] = time.process_time() + time_cap_s        # CPU time: verdicts must not depend on machine load
     DEADLINE['unknowns'] = 0
     _MODEL_CACHE.clear()
     for pi, (pc, out) in enumerate(per_path):
@@ -694,9 +694,10 @@ def run_native(contract, cfg, point):
     import signal
 
     def _alarm(*a):
-        raise TimeoutError('native execution exceeded 60 s (possible non-termination)')
-    old = signal.signal(signal.SIGALRM, _alarm)
-    signal.alarm(60)
+        raise TimeoutError('native execution exceeded 120 s of CPU time (possible non-termination)')
+    # CPU-time timer (user + system time of this process), so that a busy machine cannot fake a hang
+    old = signal.signal(signal.SIGPROF, _alarm)
+    signal.setitimer(signal.ITIMER_PROF, 120)
     try:
         with np.errstate(all='ignore'):
             contract(S, cfg)
@@ -707,8 +708,8 @@ def run_native(contract, cfg, point):
     except SystemExit as e:
         return [dict(name='(exit)', kind='exit', ok=True, lhs=0, rhs=0, canary=False, note=str(e))]
     finally:
-        signal.alarm(0)
-        signal.signal(signal.SIGALRM, old)
+        signal.setitimer(signal.ITIMER_PROF, 0)
+        signal.signal(signal.SIGPROF, old)
     return S.native_results
 
 
